@@ -189,6 +189,38 @@ class C11(Prop):
                     if got != ref["ll"]:
                         ctx.fail("C11.operands_unchanged", what="L(g & (a|b|c)*) after the intersection differs from L(g)",
                                  missing=sorted(ref["ll"] - got)[:3], extra=sorted(got - ref["ll"])[:3])
+        if case[3] == "fa" and case[6] == "dfa":
+            # State objects kept by the caller and used for two automata: a decoy over the last state only is
+            # intersected first, then the operand itself is rebuilt around the same State objects (states declared
+            # by value, transitions given with the shared objects)
+            m = O.lib()
+            from ..gen import fa as GFA
+            n_, k_, trans_, st_, fi_ = fa_pool(case[4])[case[5]]
+            nm = GFA.names(scheme, n_)
+            sv = O.sym_values(k_, case[7])
+            pool = {i: m.State(nm[i]) for i in range(n_)}
+            decoy = m.DeterministicFiniteAutomaton()
+            decoy.add_start_state(pool[n_ - 1])
+            decoy.add_final_state(pool[n_ - 1])
+            decoy.add_transition(pool[n_ - 1], sv[1], pool[n_ - 1])
+            ctx.call(left.intersection, decoy)
+            right2 = m.DeterministicFiniteAutomaton(states=set(nm))
+            for i in range(n_):
+                if st_ >> i & 1:
+                    right2.add_start_state(pool[i])
+                if fi_ >> i & 1:
+                    right2.add_final_state(pool[i])
+            for p_, s_, q_ in trans_:
+                right2.add_transition(pool[p_], sv[s_], pool[q_])
+            r = ctx.call(left.intersection, right2)
+            if ctx.returns(r, "C11.%s.intersection" % case[0], form="operand sharing State objects with an earlier operand"):
+                if case[0] == "cfg":
+                    got = O.extract_cfg(r.value).lang_upto(n)
+                else:
+                    got = O.extract_pda(r.value).lang_final_state(n)
+                if got != want:
+                    ctx.fail("C11.%s.lang" % case[0], form="operand sharing State objects with an earlier operand",
+                             missing=sorted(want - got)[:3], extra=sorted(got - want)[:3])
         if case[0] == "cfg" and not want:
             # an empty intersection intersected again (the library hands out CFG(), a grammar without start symbol,
             # for some empty results): (g & r) & r' must be an empty grammar too
